@@ -307,16 +307,11 @@ pub struct Gen<'a> {
     pub g: ConfigState,
     pub out: Vec<Cmd>,
     pub patterns: BTreeSet<&'static str>,
-    /// raw mode: allow RemoveListener on addresses that hold no listener (panics the worker
-    /// under overflow checks once base_sessions_count reaches 0; kept to a share of the cases
-    /// so that the rest of the raw space is still explored)
-    pub allow_bogus_remove_listener: bool,
 }
 
 impl<'a> Gen<'a> {
     pub fn new(rng: &'a mut Rng, cell: Cell, raw: bool) -> Gen<'a> {
-        let allow = raw && rng.chance(1, 4);
-        Gen { rng, cell, raw, g: ConfigState::new(), out: Vec::new(), patterns: BTreeSet::new(), allow_bogus_remove_listener: allow }
+        Gen { rng, cell, raw, g: ConfigState::new(), out: Vec::new(), patterns: BTreeSet::new() }
     }
 
     fn push(&mut self, rt: RequestType, tag: &'static str) {
@@ -481,7 +476,6 @@ impl<'a> Gen<'a> {
     }
 
     fn gen_listener_cmd_existing(&mut self, kind: LK, addr: SocketAddr) {
-        let exists = self.has_listener(kind, &addr);
         let proxy = self.proxy_field(kind);
         let rt = match self.rng.below(10) {
             0..=2 => RequestType::ActivateListener(ActivateListener { address: addr.into(), proxy, from_scm: false }),
@@ -490,13 +484,7 @@ impl<'a> Gen<'a> {
                 RequestType::DeactivateListener(DeactivateListener { address: addr.into(), proxy, to_scm })
             }
             6..=7 => self.update_listener_rt(kind, addr),
-            _ => {
-                if self.raw && !exists && !self.allow_bogus_remove_listener {
-                    self.update_listener_rt(kind, addr)
-                } else {
-                    RequestType::RemoveListener(RemoveListener { address: addr.into(), proxy })
-                }
-            }
+            _ => RequestType::RemoveListener(RemoveListener { address: addr.into(), proxy }),
         };
         self.push(rt, "");
     }
@@ -693,7 +681,7 @@ impl<'a> Gen<'a> {
                 1 => ck.key = self.rng.pick(cs).key.clone(), // probably the wrong key
                 _ => ck.key = "not a key".to_owned(),
             }
-        } else if self.rng.chance(1, 4) {
+        } else if self.rng.chance(1, 2) {
             ck.names = vec![(*self.rng.pick(&HOSTS)).to_owned()];
         }
         ck
@@ -980,17 +968,28 @@ impl<'a> Gen<'a> {
 
     /// a complete route: listener + cluster + frontend + backend (keeps route probes non-vacuous)
     pub fn route_pattern_http(&mut self) {
-        self.route_pattern_kind(false)
+        self.route_pattern_kind(LK::Http)
     }
 
     fn route_pattern(&mut self) {
-        let tcp = self.rng.chance(1, 4);
-        self.route_pattern_kind(tcp)
+        let kind = match self.rng.below(10) {
+            0..=3 => LK::Http,
+            4..=6 => LK::Https,
+            7..=8 => LK::Tcp,
+            _ => LK::Udp,
+        };
+        self.route_pattern_kind(kind)
     }
 
-    fn route_pattern_kind(&mut self, tcp: bool) {
-        let kind = if tcp { LK::Tcp } else { LK::Http };
-        let tag = if tcp { "route:tcp-complete" } else { "route:http-complete" };
+    /// a complete route: listener + cluster + frontend (+ certificate) + backend (keeps the route
+    /// probes non-vacuous)
+    fn route_pattern_kind(&mut self, kind: LK) {
+        let tag = match kind {
+            LK::Http => "route:http-complete",
+            LK::Https => "route:https-complete",
+            LK::Tcp => "route:tcp-complete",
+            LK::Udp => "route:udp-complete",
+        };
         let a = match self.fresh_listener(kind) {
             Some(a) => {
                 let rt = self.add_listener_rt(kind, a);
@@ -1010,13 +1009,26 @@ impl<'a> Gen<'a> {
             }
             self.push(rt, tag);
         }
-        if tcp {
-            self.push(RequestType::AddTcpFrontend(RequestTcpFrontend { cluster_id: c.clone(), address: a.into(), ..Default::default() }), tag);
-        } else {
-            let host = (*self.rng.pick(&HOSTS)).to_owned();
-            let prefix = *self.rng.pick(&PREFIXES);
-            let f = self.http_front(a, &host, prefix, Some(c.clone()));
-            self.push(RequestType::AddHttpFrontend(f), tag);
+        match kind {
+            LK::Tcp => self.push(RequestType::AddTcpFrontend(RequestTcpFrontend { cluster_id: c.clone(), address: a.into(), ..Default::default() }), tag),
+            LK::Udp => self.push(RequestType::AddUdpFrontend(RequestUdpFrontend { cluster_id: c.clone(), address: a.into(), ..Default::default() }), tag),
+            LK::Http | LK::Https => {
+                let host = (*self.rng.pick(&HOSTS)).to_owned();
+                let prefix = *self.rng.pick(&PREFIXES);
+                let f = self.http_front(a, &host, prefix, Some(c.clone()));
+                if kind == LK::Https {
+                    // a certificate that covers the host (names override)
+                    let cm = self.rng.pick(certs());
+                    self.push(RequestType::AddCertificate(AddCertificate {
+                        address: a.into(),
+                        certificate: CertificateAndKey { certificate: cm.cert.clone(), key: cm.key.clone(), names: vec![host.clone()], ..Default::default() },
+                        expired_at: None,
+                    }), tag);
+                    self.push(RequestType::AddHttpsFrontend(f), tag);
+                } else {
+                    self.push(RequestType::AddHttpFrontend(f), tag);
+                }
+            }
         }
         let ba = self.cell.a(*self.rng.pick(&BACKEND_PORTS));
         let id = (*self.rng.pick(&BACKEND_IDS)).to_owned();
